@@ -53,7 +53,12 @@ Record apply_post (s : store) (u : update) (bits : N) (s' : store) : Prop := {
   ap_next_src : s_next s' = s_next s \/ s_next s' = u_next u;
   ap_fin_src : s_fin s' = s_fin s \/ (u_fin u = Some (s_fin s') /\ fslot s < fslot s');
   ap_opt_src : s_opt s' = s_opt s \/ s_opt s' = u_attested u \/ u_fin u = Some (s_opt s');
-  ap_max : s_cur_max s' = 0 \/ (s_cur_max s <= s_cur_max s' /\ bits <= s_cur_max s')
+  ap_max : s_cur_max s' = 0 \/ (s_cur_max s <= s_cur_max s' /\ bits <= s_cur_max s');
+  (* the committees, exactly: untouched; or a missing next committee is filled in from the update; or a rotation:
+     current := the stored next, next := what the update carries (nothing, for a finality or optimistic update) *)
+  ap_committees : (s_cur s' = s_cur s /\ s_next s' = s_next s) \/
+                  (s_cur s' = s_cur s /\ s_next s = None /\ s_next s' = u_next u) \/
+                  (s_next s = Some (s_cur s') /\ s_next s' = u_next u)
 }.
 
 Lemma apply_spec s u s' :
@@ -88,7 +93,8 @@ Proof.
       - left; auto.
       - left; auto.
       - destruct Osrc; auto.
-      - right; lia. }
+      - right; lia.
+      - left; auto. }
   apply andb_true_iff in EM as [EMaj _]. assert (Maj : 512 * 2 <= bits * 3) by lia. clear EMaj.
   set (s3 := match s_next s2 with
              | None => set_next s2 (u_next u)
@@ -97,13 +103,19 @@ Proof.
   assert (E3 : s_fin s3 = s_fin s /\ s_opt s3 = s_opt s2 /\
                 (s_cur s3 = s_cur s \/ s_next s = Some (s_cur s3)) /\
                 (s_next s3 = s_next s \/ s_next s3 = u_next u) /\
-                (s_cur_max s3 = 0 \/ s_cur_max s3 = s_cur_max s2)).
+                (s_cur_max s3 = 0 \/ s_cur_max s3 = s_cur_max s2) /\
+                ((s_cur s3 = s_cur s /\ s_next s3 = s_next s) \/
+                 (s_cur s3 = s_cur s /\ s_next s = None /\ s_next s3 = u_next u) \/
+                 (s_next s = Some (s_cur s3) /\ s_next s3 = u_next u))).
   { unfold s3. destruct (s_next s2) as [nx|] eqn:EN.
     - destruct (calc_sync_period (fin_slot_or_0 u) =? calc_sync_period (h_slot (s_fin s2)) + 1); cbn.
-      + split; [assumption|]. split; [reflexivity|]. split; [right; cbn; congruence|]. split; [now right | now left].
-      + split; [assumption|]. split; [reflexivity|]. split; [now left|]. split; [left; congruence | now right].
-    - cbn. split; [assumption|]. split; [reflexivity|]. split; [now left|]. split; [now right | now right]. }
-  destruct E3 as (F3 & O3 & C3 & N3 & M3). clearbody s3.
+      + split; [assumption|]. split; [reflexivity|]. split; [right; cbn; congruence|]. split; [now right|]. split; [now left|].
+        right; right. split; [congruence | reflexivity].
+      + split; [assumption|]. split; [reflexivity|]. split; [now left|]. split; [left; congruence|]. split; [now right|].
+        left. split; [assumption | congruence].
+    - cbn. split; [assumption|]. split; [reflexivity|]. split; [now left|]. split; [now right|]. split; [now right|].
+      right; left. split; [assumption|]. split; [congruence | reflexivity]. }
+  destruct E3 as (F3 & O3 & C3 & N3 & M3 & CN3). clearbody s3.
   assert (M' : s_cur_max s3 = 0 \/ (s_cur_max s <= s_cur_max s3 /\ bits <= s_cur_max s3)) by (destruct M3 as [E | E]; [now left | right; rewrite E; lia]).
   destruct (h_slot (s_fin s3) <? fin_slot_or_0 u) eqn:EF.
   2:{ intros H; inversion H; subst s'. constructor.
@@ -115,7 +127,8 @@ Proof.
       - exact N3.
       - now left.
       - rewrite O3. destruct Osrc; auto.
-      - exact M'. }
+      - exact M'.
+      - exact CN3. }
   unfold fin_slot_or_0 in EF. destruct (u_fin u) as [fh|] eqn:EU; [|discriminate].
   assert (Lt : fslot s < h_slot fh) by (rewrite <- F3; lia).
   destruct (h_slot (s_opt (set_fin s3 fh)) <? h_slot (s_fin (set_fin s3 fh))) eqn:EO; cbn in EO;
@@ -129,6 +142,7 @@ Proof.
   - right. split; [exact EU|exact Lt].
   - right; right; exact EU.
   - exact M'.
+  - exact CN3.
   - lia.
   - rewrite O3; exact Oge.
   - intros _. lia.
@@ -138,6 +152,7 @@ Proof.
   - right. split; [exact EU|exact Lt].
   - rewrite O3. destruct Osrc; auto.
   - exact M'.
+  - exact CN3.
 Qed.
 
 (* ================================================================== sequences: verify, then apply *)
@@ -201,6 +216,17 @@ Theorem step_rotation s0 l x :
 Proof.
   intros s s'. subst s'. destruct (process_cases s x) as [-> | (V & bits & G & P)]; [left; auto|].
   exact (ap_rotation _ _ _ _ P).
+Qed.
+
+(* the committees after one step, exactly (this is where "rotation" is defined) *)
+Theorem step_committees s0 l x :
+  let s := run s0 l in let s' := process s x in let u := st_update x in
+  (s_cur s' = s_cur s /\ s_next s' = s_next s) \/
+  (s_cur s' = s_cur s /\ s_next s = None /\ s_next s' = u_next u) \/
+  (s_next s = Some (s_cur s') /\ s_next s' = u_next u).
+Proof.
+  intros s s' u. subst s' u. destruct (process_cases s x) as [-> | (V & bits & G & P)]; [left; auto|].
+  exact (ap_committees _ _ _ _ P).
 Qed.
 
 Theorem step_sources s0 l x :
